@@ -38,9 +38,6 @@ package tensor
 //@   ensures [zero] forall i :: 0 <= i && i < size ==> result[i] == 0
 //@   assigns nothing
 
-//@ func tensor.ReturnInts
-//@   trusted
-//@   assigns whole(is)
 
 // ---- C01: coordinate -> offset ----
 
